@@ -498,9 +498,18 @@ func genConSession(r *rand.Rand, i int) J {
 	}
 	templates = append(templates, []any{J{"t": "xblock", "times": 2, "body": []any{nObj(eVar("s")), J{"t": "xset", "name": bs("zq"), "e": eVar("n")}}}, nObj(eVar("zq")), J{"t": "xargs", "s": bs("k l")}})
 	nExt++
+	// a template whose output runs to several thousand bytes (whatever a render sizes by what came out before is shared
+	// by the goroutines that render it)
+	templates = append(templates, []any{J{"t": "for", "tag": "for", "var": bs("x"), "coll": J{"t": "range", "a": eLit(vInt(1)), "b": eLit(vInt(700 + 100*(i%4)))},
+		"body": []any{nObj(eVar("x")), nText("-"), nObj(eVar("s")), nText(";")}}})
+	nExt++
+	c["noreft"] = []any{len(templates) - 1} // (judged on determinism and independence only: too long a loop for the reference to re-run per event)
 	c["templates"] = templates
 	for k := 0; k < 12; k++ {
 		ops = append(ops, J{"t": len(templates) - 1 - nExt, "b": r.Intn(nenv), "entry": pick(r, entries)})
+	}
+	for k := 0; k < 10; k++ {
+		ops = append(ops, J{"t": len(templates) - 1, "b": r.Intn(nenv), "entry": pick(r, []string{"Render", "RenderString", "FRender", "Render"})})
 	}
 	for k := 0; k < 24; k++ {
 		ops = append(ops, J{"t": len(templates) - 1 - r.Intn(nExt), "b": r.Intn(nenv), "entry": pick(r, entries), "fresh": pick(r, []string{"", "", "parse"})})
